@@ -2333,3 +2333,16 @@ M("clean-tracker-scans-committed-tree", "C19", "C19.clean",
 		return false
 	})
 	countMap := make(map[string]bool)"""))
+M("revert-fix-guilty-record-downgraded", "C19", "C19.nodowngrade",
+  ("identity/validator_set_allegation.go", """				if frozen, ok := vs.maliciousValidators[baddr.String()]; ok && frozen.IsFrozen() {
+					continue
+				}
+""", ""))
+R("nodowngrade-via-store-predicate", ["C19"],
+  ("identity/validator_set_allegation.go", """				if frozen, ok := vs.maliciousValidators[baddr.String()]; ok && frozen.IsFrozen() {
+					continue
+				}
+""", """				if es.IsFrozenValidator(baddr) {
+					continue
+				}
+"""))
